@@ -29,13 +29,15 @@ def program():
         mk_config("S", "string", prompt=Y, defaults=[{"v": C("sv"), "c": Y}]),
         mk_config("F", "float", prompt=Y, defaults=[{"v": C("1.5"), "c": Y}]),
         mk_config("HID", "int", prompt=["!", S("B")], defaults=[{"v": C("7"), "c": Y}]),
+        # GHOST is mentioned but never defined: an unknown option for the protocol
+        mk_config("DEPU", "bool", prompt=Y, dep=["!", S("GHOST")], defaults=[{"v": ["n"], "c": Y}]),
         {"k": "menu", "title": "M", "dep": Y, "visif": Y, "children": [mk_config("MB", "bool", prompt=Y, defaults=[{"v": ["n"], "c": Y}])]},
     ]
-    order = [["s", n] for n in ("B", "I", "H", "S", "F", "HID", "MB")]
+    order = [["s", n] for n in ("B", "I", "H", "S", "F", "HID", "DEPU", "MB")]
     return {"prog": ents, "ord": order}
 
 
-TYPES = {"B": "bool", "I": "int", "H": "hex", "S": "string", "F": "float", "HID": "int", "MB": "bool"}
+TYPES = {"B": "bool", "I": "int", "H": "hex", "S": "string", "F": "float", "HID": "int", "DEPU": "bool", "MB": "bool"}
 
 # JSON kinds: (abstract jv, concrete value)
 KINDS = {
@@ -101,6 +103,16 @@ def rows():
         ("load missing file", good(load=["nofile", 0], set=["obj", [["I", ["i", "9"]]]])),
         ("load directory", good(load=["nofile", 1], set=["obj", [["I", ["i", "9"]]]])),
         ("save into missing directory", good(save=["nofile", 2], set=["obj", [["I", ["i", "9"]]]])),
+        # names only mentioned in expressions are not options
+        ("set mentioned-but-undefined", good(set=["obj", [["GHOST", ["b", "y"]], ["I", ["i", "9"]]]])),
+        ("reset mentioned-but-undefined", good(reset=["list", [["s", "GHOST"], ["s", "I"]]])),
+        # file names the operating system refuses outright (not an OSError in Python)
+        ("load name with NUL", good(load=["nofile", 5], set=["obj", [["I", ["i", "9"]]]])),
+        ("save name with NUL", good(save=["nofile", 5], set=["obj", [["I", ["i", "9"]]]])),
+        ("load name with lone surrogate", good(load=["nofile", 6], set=["obj", [["I", ["i", "9"]]]])),
+        ("save name with lone surrogate", good(save=["nofile", 6], set=["obj", [["I", ["i", "9"]]]])),
+        ("load empty name", good(load=["nofile", 7], set=["obj", [["I", ["i", "9"]]]])),
+        ("save empty name", good(save=["nofile", 7], set=["obj", [["I", ["i", "9"]]]])),
         ("bad json", ["badjson", "{"]),
         ("bad json 2", ["badjson", "garbage"]),
         ("bad json 3", ["badjson", '{"version": 3, "set": {"I": 9}'])
@@ -160,7 +172,8 @@ def main(run):
         f1 = f.read()
     os.makedirs(os.path.join(d, "adir"))
     nofiles = {0: os.path.join(d, "does-not-exist"), 1: os.path.join(d, "adir"), 2: os.path.join(d, "no-such-dir", "sdkconfig"),
-               3: os.path.join(d, "backup[/old]"), 4: os.path.join(d, "no[/such]dir", "sdkconfig")}
+               3: os.path.join(d, "backup[/old]"), 4: os.path.join(d, "no[/such]dir", "sdkconfig"),
+               5: os.path.join(d, "nul\x00name"), 6: os.path.join(d, "surrogate\ud800name"), 7: ""}
     paths = [p1, pfinal]
     sessions = []
     pre = good(set=["obj", [["S", ["s", "before"]], ["B", ["b", "y"]]]])
